@@ -41,6 +41,7 @@ struct Built {
     files: Vec<(String, String)>,
     /// per site: (message, 1-based line, file index or None for the main text)
     expect: Vec<(String, usize, usize)>,
+    counters: Vec<(String, String)>,
 }
 
 const REAL_FAILING: &str = "array_pop nohandle";
@@ -66,6 +67,7 @@ fn site_line(i: usize, s: &Site, real_msg: &str) -> (String, String) {
             0 => (format!("o{} = trigger_error m{}", i, i), format!("m{}", i)),
             1 => (format!("o{} = assert_error \"a {}\"", i, i), format!("a {}", i)),
             2 => (format!("o{} = {}", i, REAL_FAILING), real_msg.to_string()),
+            4 => (format!("o{} = array_join nohandle ,", i), script_cmd_message()),
             _ => (format!("o{} = trigger_error \"bad \\${{x}} z{}\"", i, i), format!("bad ${{x}} z{}", i)),
         },
     }
@@ -85,6 +87,8 @@ fn build(sites: &[Site], exit_mode: u8, mode: RunMode, real_msg: &str) -> Built 
     // including root; every Included site adds its own file
     let mut files: Vec<(String, Vec<String>)> = vec![("main.ds".into(), vec![])];
     let mut expect = vec![];
+    // (variable, expected final value; empty = must stay undefined) when the script runs to its end
+    let mut counters: Vec<(String, String)> = vec![];
     {
         let l = &mut files[0].1;
         l.push("x = set X".into());
@@ -124,32 +128,41 @@ fn build(sites: &[Site], exit_mode: u8, mode: RunMode, real_msg: &str) -> Built 
                 block.push(format!("fun{}", i));
             }
             Ctx::ForBody => {
-                block.push(format!("arr{} = array one", i));
+                // two iterations: the loop must go on after the error
+                block.push(format!("arr{} = array one two", i));
                 block.push(format!("for it{} in ${{arr{}}}", i, i));
                 pad(&mut block);
                 site_idx = block.len();
                 block.push(line);
                 block.extend(probes(i));
+                block.push(format!("cnt{} = set \"${{cnt{}}}x\"", i, i));
                 block.push("end".into());
                 block.push(format!("release ${{arr{}}}", i));
+                counters.push((format!("cnt{}", i), "xx".to_string()));
             }
             Ctx::WhileBody => {
-                block.push(format!("w{} = set true", i));
-                block.push(format!("while ${{w{}}}", i));
+                // two iterations: the loop must go on after the error
+                block.push(format!("w{} = set go", i));
+                block.push(format!("while not equals ${{w{}}} gogogo", i));
                 pad(&mut block);
                 site_idx = block.len();
                 block.push(line);
                 block.extend(probes(i));
-                block.push(format!("w{} = set false", i));
+                block.push(format!("w{} = set \"${{w{}}}go\"", i, i));
                 block.push("end".into());
+                counters.push((format!("w{}", i), "gogogo".to_string()));
             }
             Ctx::IfBranch => {
+                // the else branch must not run after an error in the then branch
                 block.push("if true".into());
                 pad(&mut block);
                 site_idx = block.len();
                 block.push(line);
                 block.extend(probes(i));
+                block.push("else".into());
+                block.push(format!("wrong{} = set reached", i));
                 block.push("end".into());
+                counters.push((format!("wrong{}", i), String::new()));
             }
             Ctx::ElseBranch => {
                 block.push("if false".into());
@@ -189,7 +202,7 @@ fn build(sites: &[Site], exit_mode: u8, mode: RunMode, real_msg: &str) -> Built 
     if mode == RunMode::FileIncluding {
         out.push(("root.ds".into(), "# root\n!include_files ./main.ds\nroot_done = set yes".into()));
     }
-    Built { files: out, expect }
+    Built { files: out, expect, counters }
 }
 
 pub fn bounds(tier: Tier) -> Value {
@@ -204,7 +217,8 @@ fn run_case(w: &mut Worker, sites: &[Site], exit_mode: u8, mode: RunMode, real_m
     let cj = json!({"sites": sites.iter().map(|s| json!([format!("{:?}", s.ctx), s.kind, s.blanks])).collect::<Vec<_>>(), "exit_mode": exit_mode, "mode": format!("{:?}", mode),
         "files": b.files.iter().map(|(n, t)| json!({"name": n, "text": t})).collect::<Vec<_>>()});
     w.begin(|| cj.clone());
-    let r = guarded(|| execute(&b, exit_mode, mode, &w.scratch));
+    let slot = w.watch_slot();
+    let r = guarded(|| execute(&b, exit_mode, mode, &w.scratch, Some(slot)));
     w.add_transitions(1);
     match r {
         Err(p) => w.fail("panic", &p, cj),
@@ -236,10 +250,14 @@ fn same_source(a: &str, b: &str) -> bool {
     }
 }
 
-fn execute(b: &Built, exit_mode: u8, mode: RunMode, scratch: &std::path::Path) -> Result<u64, (String, String)> {
+fn execute(b: &Built, exit_mode: u8, mode: RunMode, scratch: &std::path::Path, slot: Option<std::sync::Arc<WatchSlot>>) -> Result<u64, (String, String)> {
     let dir = scratch.join("c10");
     let ctx = sdk_context();
-    let (env, _o, _e, _h) = quiet_env();
+    let (env, _o, _e, h) = quiet_env();
+    if let Some(s) = slot {
+        // a run that does not end is halted by the watchdog and then fails the oracle below
+        *s.halt.lock().unwrap() = Some(h);
+    }
     let mut paths: Vec<String> = vec![];
     let result = match mode {
         RunMode::Text => runner::run_script(&b.files[0].1, ctx, Some(env)),
@@ -314,6 +332,15 @@ fn execute(b: &Built, exit_mode: u8, mode: RunMode, scratch: &std::path::Path) -
                     return Err(("last-error-source".into(), format!("site {}: get_last_error_source {:?}, expected {:?}", i, get("s"), src)));
                 }
             }
+            for (name, value) in &b.counters {
+                let got = vars.get(name).cloned().unwrap_or_default();
+                if got != *value {
+                    return Err((
+                        "block-did-not-continue".into(),
+                        format!("after the error the enclosing block did not go on as written: {} = {:?}, expected {:?}", name, got, value),
+                    ));
+                }
+            }
             Ok(hash64(&("ok", b.expect.len(), exit_mode)))
         }
         (Ok(c), Some(k)) => Err((
@@ -346,6 +373,8 @@ fn execute(b: &Built, exit_mode: u8, mode: RunMode, scratch: &std::path::Path) -
 
 pub fn worker(w: &mut Worker) {
     let tier = w.tier;
+    w.risky = true;
+    w.set_case_limit_ms(1_000);
     let real_msg = {
         let mut s = Session::new();
         match s.call("array_pop", &["nohandle"]) {
@@ -355,9 +384,12 @@ pub fn worker(w: &mut Worker) {
     };
     let mut variants: Vec<Site> = vec![];
     for ctx in CTXS {
-        for kind in 0..4u8 {
+        for kind in 0..5u8 {
             if ctx == Ctx::ScriptCommand && kind > 0 {
                 continue;
+            }
+            if kind == 4 && (ctx == Ctx::Top || ctx == Ctx::Included) {
+                continue; // the same as the ScriptCommand context
             }
             for blanks in 0..3u8 {
                 variants.push(Site { ctx, kind, blanks });
@@ -430,7 +462,7 @@ pub fn crash_sig(_case: &Value, kind: &str) -> String {
     kind.to_string()
 }
 
-pub const RULE: &str = "programs: every sequence of 1..k error sites, each site = context {top level, function body, for body, while body, if branch, else branch, inside a script-implemented library command, included file} x error kind {trigger_error, assert_error with a message containing a space, a real failing command, a message containing the literal text ${x}} x 0..2 blank/comment lines in front; each site assigns an output variable and is followed by get_last_error / get_last_error_line / get_last_error_source probes; x exit_on_error schedule {never, on from the start, turned on after the first site, on then off before the first site} x run mode {text, file, file that includes the file with the sites}. Oracle (error protocol): output variable 'false'; message, 1-based line and source file of the instruction the runner was executing (the caller's line for the script-implemented command, the included file's own path and line for included code); the latest error wins; the script reaches its last line; under exit_on_error the run fails with Runtime(message, line, source) of the first error after it was turned on. evaluations = programs run";
+pub const RULE: &str = "programs: every sequence of 1..k error sites, each site = context {top level, function body, for body, while body, if branch, else branch, inside a script-implemented library command, included file} x error kind {trigger_error, assert_error with a message containing a space, a real failing command, a message containing the literal text ${x}, a failing script-implemented command} x 0..2 blank/comment lines in front; each site assigns an output variable and is followed by get_last_error / get_last_error_line / get_last_error_source probes; x exit_on_error schedule {never, on from the start, turned on after the first site, on then off before the first site} x run mode {text, file, file that includes the file with the sites}. Oracle (error protocol): output variable 'false'; message, 1-based line and source file of the instruction the runner was executing (the caller's line for the script-implemented command, the included file's own path and line for included code); the latest error wins; the script reaches its last line and the enclosing blocks go on as written (a for body with two elements and a while body run twice, the else branch of an if whose then-branch failed does not run); under exit_on_error the run fails with Runtime(message, line, source) of the first error after it was turned on. evaluations = programs run";
 pub const ASSUMPTIONS: &[&str] = &["the message of the real failing command is taken from running that command alone (differential)", "failing commands are not placed in condition position (an error raised by a condition is outside the property)"];
 pub const EXHAUSTIVE: bool = true;
 pub const WALL_CAP_S: (u64, u64) = (55, 1500);
